@@ -66,10 +66,26 @@ class Driver(object):
         mark = len(br.ledger_in)
         vconn.settle(rt, 1)
         mark = len(br.ledger_in)
-        ch.basic.publish(body, meta['rkey'], meta['exch'],
-                         properties=dict(props) if props or meta.get('enc')
-                         else None,
-                         mandatory=meta['mand'], immediate=meta['imm'])
+        via = meta.get('via')
+        if via in ('message_read_set', 'message_set'):
+            # the Message API: the encoding is set through the property setter, with or
+            # without a read of the decoded view before it
+            from amqpstorm.message import Message
+            start = dict(props)
+            start['content_encoding'] = 'utf-8'
+            start.setdefault('app_id', 'c04')
+            msg = Message(ch, body=body, properties=start, auto_decode=True)
+            if via == 'message_read_set':
+                msg.properties
+                msg.app_id
+            msg.content_encoding = meta['enc']
+            msg.publish(meta['rkey'], meta['exch'], mandatory=meta['mand'],
+                        immediate=meta['imm'])
+        else:
+            ch.basic.publish(body, meta['rkey'], meta['exch'],
+                             properties=dict(props) if props or meta.get('enc')
+                             else None,
+                             mandatory=meta['mand'], immediate=meta['imm'])
         vconn.settle(rt, 1)
         if br.parse_error:
             raise core.Broken('wire not parseable: %s' % br.parse_error)
@@ -183,6 +199,8 @@ class Driver(object):
                 t = 'plain ascii %d' % rnd.randrange(1000)
             metas.append(base(fsrv=rnd.choice([16, 17, 64, 4096]), kind='text',
                               text=t, enc=e,
+                              via=(rnd.choice([None, 'message_read_set', 'message_set'])
+                                   if e is not None else None),
                               props=rnd.choice([None, {'app_id': 'x'},
                                                 {'priority': 3,
                                                  'headers': {'k': 'v'}}])))
